@@ -62,7 +62,7 @@ def gen_cases(ctx):
             muts.append(pc.enc(m))
     add("mutants", muts)
     add("unicode", [pc.enc(pc.unicode_noise(rng, rng.randint(1, 80))) for _ in range(1500 if q else 30000)])
-    add("towers", [pc.enc(t) for t in pc.towers(big=not q).values()])
+    add("towers", [pc.enc(t) for t in pc.towers(big=True).values()])   # the bounds of the statement (128 levels, 2,000 items) in both tiers
     return cases, hist
 
 
@@ -91,11 +91,60 @@ def shrinker(case):
         step //= 2
 
 
+def server_towers(ctx, cov):
+    """Every tower (128 levels / 2,000 items) alone in a workspace served by the real binary (debug build of /repo's
+    working tree): the start-up index, documentSymbol and diagnostic must all be answered and the process must exit 0."""
+    import os, shutil, tempfile
+    from vlib import lsp
+    binary = lsp.build_server()
+    done = 0
+    for name, text in pc.towers(big=True).items():
+        root = tempfile.mkdtemp(prefix="goldverif-c04-")
+        try:
+            path = os.path.join(root, "aTower.god")
+            open(path, "w").write(text)
+            s = lsp.Session(binary, root)
+            s.initialize(root)
+            uri = lsp.file_uri(path)
+            s.request(1, "textDocument/documentSymbol", {"textDocument": {"uri": uri}})
+            s.request(2, "textDocument/diagnostic", {"textDocument": {"uri": uri}})
+            r1 = s.wait_response(1, 60)
+            r2 = s.wait_response(2, 60)
+            r3, rc = s.shutdown_exit(3, 30)
+            bad = None
+            if r1 is None or "result" not in r1:
+                bad = "documentSymbol was not answered with a result"
+            elif r2 is None or "result" not in r2:
+                bad = "diagnostic was not answered with a result"
+            elif rc != 0:
+                bad = "the server did not exit with status 0 (status %r)" % rc
+            if bad:
+                err = [l.strip() for l in s.stderr if "overflow" in l or "panicked" in l or "fatal" in l][:3]
+                rep = {"engine": "server(debug build, pool worker stack)", "tower": name, "case": pc.enc(text),
+                       "case_readable": text[:300] + ("..." if len(text) > 300 else ""), "observed": bad, "stderr": err,
+                       "expected": "both requests answered and exit status 0 on a text within the stated bounds (128 levels, 2,000 items)"}
+                v = core.Violation("tower %s: %s %s" % (name, bad, " / ".join(err)), core.write_replay(ctx.pid, ctx.seed, rep), True)
+                v.coverage = cov
+                raise v
+            done += 1
+        finally:
+            shutil.rmtree(root, ignore_errors=True)
+    return done
+
+
 def correspondence(ctx, broken_obligations=()):
     cases, hist = gen_cases(ctx)
     big = [c for c in cases if c.count(".") > 6000]
-    cov = diff.differential(ctx, "parsesafe", cases, model_engine="parse", oracle=oracle, shrinker=shrinker,
-                            nontrivial=lambda c: c.count(".") >= 2, describe=pc.dec)
+    pending = None
+    try:
+        cov = diff.differential(ctx, "parsesafe", cases, model_engine="parse", oracle=oracle, shrinker=shrinker,
+                                nontrivial=lambda c: c.count(".") >= 2, describe=pc.dec)
+    except core.Violation as v:
+        if v.found_input:
+            raise
+        # the correspondence broke without a failing input: the remaining stages go on searching for one
+        pending = v
+        cov = dict(getattr(v, "coverage", None) or {})
     # overflow checks and optimisation level: the same oracle on the release build
     rel = diff.Engines.harness(release=True)
     sample = cases[::7] + big
@@ -109,11 +158,15 @@ def correspondence(ctx, broken_obligations=()):
             v.coverage = cov
             raise v
     cov["release_build_cases"] = len(sample)
+    # the bounds of the statement on the server as built (unoptimised frames, pool workers with the default 2 MiB stack)
+    cov["server_towers"] = server_towers(ctx, cov)
+    if pending is not None:
+        raise pending
     cov["input_histogram"] = hist
     cov["rule"] = ("exhaustive: strings <= %d over 17 lexical symbols, token sequences <= %d over a 16-kind top-level alphabet and <= %d over a "
                    "16-kind body alphabet inside a method; random: keyword soups, 1-3 byte/token mutations of every fixture and of generated "
                    "programs, random Unicode; towers (nesting 128, lists %d); non-trivial = at least 3 characters"
-                   % ((4, 4, 3, 400) if ctx.quick else (5, 5, 4, 2000)))
+                   % ((4, 4, 3, 2000) if ctx.quick else (5, 5, 4, 2000)))
     cov["exhaustive"] = True
     cov["samples"] = [pc.dec(cases[90000])[:120], pc.dec(cases[-30])[:200]]
     return cov
